@@ -118,10 +118,35 @@ def bc(v, n):
     return flo(np.broadcast_to(a, (n,))) if a.ndim == 0 else flo(a)
 
 
+def _decoy(xa):
+    """another sample of the same length and total for the earlier use of an object / of the module: the draws in
+    reverse order, or -- when two interior draws differ -- the same first and last draw with two interior draws exchanged
+    (same first value, same last value, same total, same prefix sums from the later of the two positions on)"""
+    xa = np.asarray(xa, dtype=float)
+    n = len(xa)
+    if n > 3 and (int(n + 7 * xa.sum()) % 2 == 0):
+        inner = xa[1:n - 1]
+        diff = np.nonzero(inner != inner[0])[0]
+        if len(diff):
+            i, j = 1, 1 + int(diff[int(3 * xa.sum()) % len(diff)])
+            d = xa.copy()
+            d[i], d[j] = d[j], d[i]
+            return d
+    return xa[::-1].copy()
+
+
 def impl(case):
     nm = make_nm(case["init"])
     op = case["op"]
     x = xs(case)
+    if op in ("estim", "bet") and len(x) > 2:
+        # an earlier, independent computation in the same process (another object) on a rearrangement of the sample
+        try:
+            o = make_nm(case["init"])
+            with np.errstate(all="ignore"):
+                (o.estim if op == "estim" else o.bet)(_decoy(x))
+        except Exception:  # noqa
+            pass
     if op == "test":
         p, h = nm.test(x)
         res = {"st": "ok", "p": float(p), "hist": flo(h)}
@@ -134,7 +159,7 @@ def impl(case):
         reuse = None
         try:
             if len(xa) > 1:
-                nm2.test(xa[::-1].copy())
+                nm2.test(_decoy(xa))
             for k in (1, 2):
                 p2, h2 = nm2.test(xa)
                 if not (np.array_equal(np.asarray(h2, dtype=float), np.asarray(h, dtype=float), equal_nan=True)
